@@ -180,7 +180,8 @@ class C02(Prop):
         "C02.canon_never_raises", "C02.canon_obj_never_raises", "C02.canon_value", "C02.canon_parses_back",
         "C02.canon_idem", "C02.canon_strip_after_nostrip", "C02.canon_complete_invariant",
         "C02.canon_complete_invariant_str", "C02.canon_nostrip_invariant", "C02.str_parts", "C02.flags",
-        "C02.major_minor_micro", "C02.scan_render", "C02.str_is_normal_form", "C02.spelling_independent",
+        "C02.major_minor_micro", "C02.scan_render", "C02.scan_sound", "C02.components_are_pep440_reading",
+        "C02.str_is_normal_form", "C02.spelling_independent",
         "V.scan_str", "V.scan_wf", "V.cmpkey_eq_iff",
     ]
     generated = ["VersionRx"]
